@@ -238,7 +238,7 @@ def rule_persisted_grows(ctx):
         if t["k"] == "call" and "decl" in t["f"] and f.callee(t)[0].qname in ("anyhow::__private::format_err", "anyhow::Error::msg", "anyhow::__private::must_use"):
             errs.append(bi)
         for s in b["s"]:
-            if s["k"] == "assign" and s["p"]["l"] == 0 and s["r"]["k"] == "agg" and s["r"].get("variant") == "Err":
+            if s["k"] == "assign" and s["p"]["l"] in Q.ret_locals(f) and s["r"]["k"] == "agg" and s["r"].get("variant") == "Err":
                 errs.append(bi)
     ctx.floor(R, "writes of persisted", len(wr_persisted), 1)
     ctx.floor(R, "queue reset writes", len(wr_queued_all), 1)
@@ -258,7 +258,8 @@ def rule_persisted_grows(ctx):
     for wq in wr_queued_all:
         rets = cfg.returns()
         r = cfg.reach_from([wq], avoid_blocks=frozenset(clear))
-        ok = not (set(rets) & r) or wq in clear
+        # either order is fine: the cache is emptied on every path after the reset, or it was emptied on every path before it
+        ok = not (set(rets) & r) or wq in clear or cfg.must_pass_blocks(wq, set(clear))
         ctx.ob(R, "cache emptied with queue reset", ok, "every path from the queue reset to a return empties the cache (clear or fresh value)" if ok else
                "the queue can be fast-forwarded to the persisted state while stale cached blocks are kept (cache not emptied): gap in the cache", f.loc())
 
@@ -303,12 +304,33 @@ def rule_eviction(ctx):
     ctx.ob(R, "CACHE_CAPACITY", cap is not None and cap >= 1, "CACHE_CAPACITY = %s" % cap)
 
 
+def only_reached_from(ctx, f, allowed, depth=0):
+    """The root function of body f is one of `allowed`, or every workspace caller of it (transitively, <= 3
+    levels) is: a private function factored out of an allowed anchor."""
+    r = root_fn(f)
+    if r.qname in allowed:
+        return True
+    if depth >= 3:
+        return False
+    callers = set()
+    for g in ctx.F.fns:
+        if g.in_testonly():
+            continue
+        for b in g.blocks:
+            t = b["t"]
+            if t["k"] == "call" and "decl" in t["f"]:
+                d, res, rk = g.callee(t)
+                if res is not None and res.path == r.path:
+                    callers.add(g)
+    return bool(callers) and all(only_reached_from(ctx, g, allowed, depth + 1) for g in callers)
+
+
 def rule_single_writer(ctx):
     R = "C08.6"
-    ctx.rule(R, "single storage writer: EngineInterface::queue_next_block has one production call site, inside one loop; the block handed over is block(max(queue_next, persisted.next())) and queue_next := block.number().next()")
+    ctx.rule(R, "single storage writer: EngineInterface::queue_next_block has one production call site, reached only from EngineManagerRunner::run; the block handed over is block(max(cursor, persisted.next())) and the cursor is advanced to block.number().next()")
     cs = calls_to(ctx, IFACE + "::queue_next_block")
-    ok = len(cs) == 1 and root_fn(cs[0][0]).qname.endswith("EngineManagerRunner::run")
-    ctx.ob(R, "call sites of queue_next_block", ok, "exactly one call site, in EngineManagerRunner::run" if ok else "queue_next_block is called from %s" % [x[0].qname for x in cs])
+    ok = len(cs) == 1 and only_reached_from(ctx, cs[0][0], {"zksync_consensus_engine::manager::EngineManagerRunner::run"})
+    ctx.ob(R, "call sites of queue_next_block", ok, "exactly one call site, reached only from EngineManagerRunner::run" if ok else "queue_next_block is called from %s" % [x[0].qname for x in cs])
     if not cs:
         return
     f, c = cs[0]
@@ -324,19 +346,35 @@ def rule_single_writer(ctx):
             g = ctx.F.by_qname.get(cl[0][1], [None])[0]
             if g is not None:
                 sel = ctx.T(g).local(0)
-    oks = sel is not None and sel[0] == "call" and sel[1] == BS + "::block" and any(x[0] == "call" and x[1] in ("std::cmp::Ord::max",) for x in subterms(sel)) \
-        and any(chain(x)[1][-2:] == ["persisted", "next()"] for x in subterms(sel)) and any(x[0] == "upvar" and x[1] == "queue_next" for x in subterms(sel))
-    ctx.ob(R, "block handed to storage", okb and oks, "block = wait_for_some(|s| s.block(max(queue_next, s.persisted.next())))" if (okb and oks) else
+    cursor = None
+    oks = False
+    if sel is not None and sel[0] == "call" and sel[1] == BS + "::block":
+        mx = [x for x in subterms(sel) if x[0] == "call" and x[1] == "std::cmp::Ord::max"]
+        if mx:
+            ops = list(mx[0][2])
+            per = [o for o in ops if chain(o)[1][-2:] == ["persisted", "next()"]]
+            oth = [o for o in ops if o not in per]
+            if len(per) == 1 and len(oth) == 1 and oth[0][0] == "upvar":
+                cursor = oth[0][1]
+                oks = True
+    ctx.ob(R, "block handed to storage", okb and oks, "block = wait_for_some(|s| s.block(max(<cursor>, s.persisted.next())))" if (okb and oks) else
            "the block handed to queue_next_block is %s selected by %s" % (show(blk)[:80], show(sel)[:120] if sel else None), f.loc(c["t"].get("ln")))
-    # queue_next := block.number().next()
     okn = False
     for b in f.blocks:
         for st in b["s"]:
-            if st["k"] == "assign" and T.place(st["p"]) == ("upvar", "queue_next"):
+            if st["k"] == "assign" and cursor is not None and T.place(st["p"]) == ("upvar", cursor):
                 rt = T.rvalue(st["r"])
                 if chain(rt)[1][-2:] == ["number()", "next()"] and any(x[0] == "call" and x[1].endswith("sync::wait_for_some") for x in subterms(rt)):
                     okn = True
-    ctx.ob(R, "queue_next advance", okn, "queue_next := block.number().next() of the block just selected" if okn else "queue_next is not advanced to block.number().next()", f.loc())
+    # the cursor may also be a local of the same body (not captured): accept an assignment to the local the closure captures
+    if not okn and cursor is not None:
+        for b in f.blocks:
+            for st in b["s"]:
+                if st["k"] == "assign" and not st["p"].get("pr") and f.var_names().get(st["p"]["l"]) == cursor:
+                    rt = T.rvalue(st["r"])
+                    if chain(rt)[1][-2:] == ["number()", "next()"]:
+                        okn = True
+    ctx.ob(R, "cursor advance", okn, "the cursor is set to block.number().next() of the block just selected" if okn else "the cursor is not advanced to block.number().next()", f.loc())
 
 
 def rule_peer_blocks(ctx):
